@@ -41,12 +41,26 @@ CLAIMED = {
         technique="contract-based deductive verification: symbolic execution of the real Python source against sidecar contracts, generic arithmetic lemmas instantiated explicitly, VCs discharged by z3 (cvc5 for unknowns)",
         design="3/C15",
     ),
+    "C04": dict(
+        category="proof",
+        text="Contracts on the functional geometry API: find_padding_for_stride (0 <= pad < stride, sum divisible, 0 when divisible), apply_pad_to_stride (output sides the smallest multiples of the stride, content unmoved, zeros only at bottom/right), resize_image / apply_resizer (size int(side*scale); keypoints multiplied by scale exactly when the image is resized; unit scale is the identity), apply_sizematcher (output exactly (max_height, max_width), eff_scale the smaller side ratio, identity when sizes match), make_centered_bboxes, generate_crops (crop exactly crop_size; keypoints, centroid and pixels shifted by the same top-left corner; missing keypoints stay missing), and the resize registration lemma (content lands within one output pixel of the scaled keypoint when the size truncation loses <= 0.5 px). All for symbolic sizes, strides, scales, centroids.",
+        note="trusted: torchvision resize (shape + documented sampling map), F.pad, kornia crop_and_resize (unit-scale boxes, sides >= 2). Known finding C04/resize-truncation carved out of the registration lemma and re-confirmed from a committed witness. Not decided: geometric/intensity augmentation (kornia AugmentationSequential), the CenteredInstanceDataset re-crop, find_instance_crop_size, the four Dataset classes end to end (sleap_nn.data.augmentation/custom_datasets do not import in this environment and need sio/kornia object models).",
+        technique="contract-based deductive verification: symbolic execution of the real Python source against sidecar contracts, VCs discharged by z3 (cvc5 for unknowns)",
+        design="3/C04",
+    ),
+    "C11": dict(
+        category="proof",
+        text="Frame (no write to argument storage) and label-preservation contracts: generate_centroids (result = anchor if visible else bounding-box midpoint of the visible nodes, NaN when none; input keypoints untouched), find_points_bbox_midpoint, generate_crops, apply_resizer, apply_pad_to_stride and the confidence-map / PAF generators (every argument tensor provably unmodified on every path; missing keypoints stay NaN / contribute a zero channel). The write-through of the fallback midpoint into the caller's keypoints in the pinned tree was found by the frame obligation and repaired (fix: commit in known_findings.txt).",
+        note="node axis of the centroid functions unrolled (1..3 nodes). Aliasing rules of torch views/copies are part of the trusted tensor model. Not decided: the Dataset classes (__getitem__ determinism over call sequences, cache immutability, _get_lf_idx_list/_get_instance_idx_list filters, __len__) and process_lf -- custom_datasets does not import here and needs sleap_io object models.",
+        technique="contract-based deductive verification: symbolic execution with storage/alias tracking, frame obligations discharged by z3",
+        design="3/C11",
+    ),
 }
 
 NOT_APPLICABLE = {
     "C19": "no pre/postcondition on a function of this repository expresses it: training completion, artifacts and crash-point file contents live in Lightning/wandb/OmegaConf and the file system (DESIGN.md section 5)",
 }
-NOT_BUILT = ["C02", "C03", "C04", "C08", "C09", "C10", "C11", "C12", "C13", "C14", "C16", "C17", "C18", "C20"]
+NOT_BUILT = ["C02", "C03", "C08", "C09", "C10", "C12", "C13", "C14", "C16", "C17", "C18", "C20"]
 
 
 def main():
